@@ -30,6 +30,8 @@ Decides:
                    word being completed is in hand check_complete always answers (a completion request never falls through to the program body).
  P no abort      the panic-capable sites (indexing, slicing, Vec ops with a precondition, explicit panics) in the tokenizer, the scope iterators and the
                         parse combinators are the reviewed, guarded ones (shared with C04): a panic is status 101 with a backtrace, not "stderr, status 1".
+ N refused text  parse_os_str refuses text that is not valid utf8 instead of patching it (shared with C02); H catch never rolls back the outcome of a
+                        command that was entered (K3 rows for ParseFailure, shared with C06).
 Does not decide: byte equality of the text across the process boundary."""
 import re
 from core import *
